@@ -258,3 +258,116 @@ func uniqueSites(p *Prog, r *Report, R string, only func(rel string) bool) {
 		r.Check(used, R, f.Name+"/makes-unique", mu.Pos(p), "MakeUnique() is called and its result used", "the message is written through without MakeUnique(): "+t[3])
 	}
 }
+
+// freshBackingPerMessage: inside a per-pipe loop every slice installed as a message's
+// Header or Body is backed by memory of that iteration: the message's own buffers, or a
+// make/append-onto-a-fresh-slice evaluated inside the loop.  A buffer created once before
+// the loop (or kept in a field of the pipe) and installed in every message — in particular
+// append(prefix, …) onto a prefix with spare capacity — makes all messages of the pipe share
+// one backing array: a later message overwrites the header of an earlier one the
+// application (or a queue) still holds.
+func freshBackingPerMessage(p *Prog, r *Report, R string, inPkg func(rel string) bool) {
+	n := 0
+	for _, fn := range p.Funcs {
+		rel, _ := p.FuncRel(fn)
+		if !inPkg(rel) {
+			continue
+		}
+		EachInstr(fn, func(in ssa.Instruction) {
+			st, ok := in.(*ssa.Store)
+			if !ok {
+				return
+			}
+			fa, ok := st.Addr.(*ssa.FieldAddr)
+			if !ok || !isMsgPtr(fa.X.Type()) {
+				return
+			}
+			fld := fieldName(fa.X.Type(), fa.Field)
+			if fld != "Header" && fld != "Body" {
+				return
+			}
+			_, body := loopBody(st.Block())
+			if body == nil {
+				return
+			}
+			n++
+			root, how := backingRoot(st.Val, 0)
+			bad := ""
+			switch x := root.(type) {
+			case nil:
+			case *ssa.Const:
+			case *ssa.MakeSlice:
+				if !body[x.Block()] {
+					bad = "a slice made once at " + p.InstrPos(x) + ", outside the loop"
+				}
+			case *ssa.Alloc:
+				if !body[x.Block()] {
+					bad = "an array allocated once at " + p.InstrPos(x) + ", outside the loop"
+				}
+			case *ssa.UnOp:
+				if fa2, ok := x.X.(*ssa.FieldAddr); ok && !isMsgPtr(fa2.X.Type()) {
+					bad = "the field " + Desc(fa2) + " of a longer-lived object"
+				}
+			case *ssa.Phi:
+				// a slice carried around the loop
+				if x.Block() != nil && body[x.Block()] {
+					for _, e := range x.Edges {
+						if ms, ok := e.(*ssa.MakeSlice); ok && !body[ms.Block()] {
+							bad = "a slice made once at " + p.InstrPos(ms) + ", outside the loop"
+						}
+					}
+				}
+			}
+			key := p.FuncName(fn) + "/" + Desc(fa)
+			r.Check(bad == "", R, key, p.InstrPos(st), "installed slice is the message's own buffer or fresh in this iteration ("+how+")", "the "+fld+" installed in each message of the loop is backed by "+bad+" ("+how+"): all messages from this pipe share one backing array, and a later message overwrites the "+fld+" of earlier ones that are still queued or held by the application")
+		})
+	}
+	r.Count("pool.in_loop_buffer_installs", n)
+}
+
+// backingRoot follows slicing and append (first argument: the result may reuse its backing
+// array) back to where the memory comes from.
+func backingRoot(v ssa.Value, d int) (ssa.Value, string) {
+	if d > 8 {
+		return nil, "?"
+	}
+	switch x := v.(type) {
+	case *ssa.Slice:
+		return backingRoot(x.X, d+1)
+	case *ssa.Call:
+		if b, ok := x.Call.Value.(*ssa.Builtin); ok && b.Name() == "append" {
+			rt, how := backingRoot(x.Call.Args[0], d+1)
+			return rt, "append onto " + how
+		}
+		return nil, "call " + CalleeName(&x.Call)
+	case *ssa.MakeSlice:
+		return x, "make"
+	case *ssa.Alloc:
+		return x, "array"
+	case *ssa.Const:
+		return x, "nil"
+	case *ssa.UnOp:
+		if x.Op == token.MUL {
+			if fa, ok := x.X.(*ssa.FieldAddr); ok {
+				if isMsgPtr(fa.X.Type()) {
+					return nil, "the message's own " + fieldName(fa.X.Type(), fa.Field)
+				}
+				return x, "field " + Desc(fa)
+			}
+			if al, ok := x.X.(*ssa.Alloc); ok {
+				// a local variable cell: its stored values
+				if refs := al.Referrers(); refs != nil {
+					for _, ref := range *refs {
+						if s, ok := ref.(*ssa.Store); ok && s.Addr == al {
+							return backingRoot(s.Val, d+1)
+						}
+					}
+				}
+			}
+		}
+		return nil, Desc(x)
+	case *ssa.Phi:
+		return x, "loop-carried slice"
+	}
+	return nil, Desc(v)
+}
